@@ -242,7 +242,8 @@ def write_replay(pid, viol, seed, tier):
     return path
 
 
-def write_evidence(mod, tier, seed, total, per_part, wall, violations, exhaustive_parts):
+def write_evidence(mod, tier, seed, total, per_part, wall, violations, exhaustive_parts,
+                   n_regress=0):
     pid = mod.ID
     cov = {
         "evaluations": total.evaluations,
@@ -253,6 +254,7 @@ def write_evidence(mod, tier, seed, total, per_part, wall, violations, exhaustiv
         "parts": per_part,
         "excluded_by_finding": dict(total.excluded),
         "inconclusive_cases": total.inconclusive,
+        "regression_replays": n_regress,
     }
     if exhaustive_parts:
         cov["exhaustive_parts"] = exhaustive_parts
@@ -322,6 +324,36 @@ def known_finding_lines(mod, tier):
     return None
 
 
+def regress_cases(mod, tier):
+    """Seconds-long replay tier: saved shrunk cases of defects that were fixed (and of
+    seeded changes) must keep passing.  Returns a violation dict or None, and a count."""
+    d = os.path.join(HERE, "regress")
+    n = 0
+    if not os.path.isdir(d):
+        return None, 0
+    parts = {p.name: p for p in mod.parts(tier)}
+    for fn in sorted(os.listdir(d)):
+        if not fn.startswith(mod.ID + "-") or not fn.endswith(".json"):
+            continue
+        with open(os.path.join(d, fn)) as f:
+            body = json.load(f)
+        part = parts.get(body["part"])
+        if part is None:
+            continue
+        n += 1
+        signal.setitimer(signal.ITIMER_REAL, CASE_TIMEOUT)
+        try:
+            part.prop(body["case"])
+        except Violation as v:
+            return {"part": part.name, "case": body["case"], "sub": v.sub, "msg": v.msg,
+                    "shape": v.shape}, n
+        except Inconclusive:
+            pass
+        finally:
+            signal.setitimer(signal.ITIMER_REAL, 0)
+    return None, n
+
+
 def main(argv=None):
     ap = argparse.ArgumentParser()
     ap.add_argument("id")
@@ -354,6 +386,9 @@ def main(argv=None):
             for s in range(nsh):
                 jobs.append((modname, i, args.tier, seed, s, nsh, args.scale))
         viol = known_finding_lines(mod, args.tier)
+        n_regress = 0
+        if viol is None:
+            viol, n_regress = regress_cases(mod, args.tier)
         results = []
         if viol is None:
             if args.inline or len(jobs) == 1:
@@ -380,7 +415,7 @@ def main(argv=None):
         exhaustive_parts = [n for n, pp in per_part.items() if pp["exhaustive"]]
         wall = time.time() - t0
         write_evidence(mod, args.tier, seed, total, per_part, wall, 1 if viol else 0,
-                       exhaustive_parts)
+                       exhaustive_parts, n_regress)
         for sig, cnt in sorted(total.excluded.items()):
             print("excluded-by-known-finding %s: %d cases" % (sig, cnt))
         print("%s tier=%s seed=%d evaluations=%d distinct_nontrivial=%d inconclusive=%d wall=%.1fs" % (
